@@ -55,8 +55,8 @@ func (c *muxCase) line(cfg, date string, impl []byte) string {
 	if c.codec == "h265" {
 		hv, hs = hevcInfo(c.vps, c.sps)
 	}
-	fmt.Fprintf(&b, "c08 mux cfg=%s codec=%s w=%d h=%d fr=%s vdr=%s sps=%s pps=%s vps=%s hv=%s hs=%s aac=%s asr=%d ass=%d ach=%d adr=%s asc=%s date=%s known=%d impl=%s",
-		cfg, c.codec, c.w, c.h, f64hex(c.fr), f64hex(c.vdr), Hx(c.sps), Hx(c.pps), Hx(c.vps), hv, hs,
+	fmt.Fprintf(&b, "c08 mux cfg=%s codec=%s w=%d h=%d fr=%s vdr=%s sps=%s pps=%s vps=%s hv=%s hs=%s sv=%s aac=%s asr=%d ass=%d ach=%d adr=%s asc=%s date=%s known=%d impl=%s",
+		cfg, c.codec, c.w, c.h, f64hex(c.fr), f64hex(c.vdr), Hx(c.sps), Hx(c.pps), Hx(c.vps), hv, hs, B01(c.codec != "h265" && avcSpsDecodes(c.sps)),
 		B01(c.aac), c.asr, c.ass, c.ach, f64hex(c.adr), Hx(c.asc), Hx([]byte(date)), c.known, Hx(impl))
 	if cfg == "join" {
 		b.WriteString(" join=1")
